@@ -26,7 +26,7 @@ def run(ctx):
     cases = []
     n = 24 if ctx.tier == 'quick' else 300
     for k in range(n):
-        kind = r.choice(['opus', 'opus', 'dsd', 'mmb', 'ssd2'])
+        kind = ['opus', 'dsd', 'opus', 'mmb', 'ssd2'][k % 5]      # every kind in every run
         ctx.count('kind.' + kind)
         if kind == 'opus':
             tracks = r.choice([40, 80, 35])
